@@ -162,6 +162,14 @@ def C17_ext(ctx, facts):
     mine = [o for o in ctx.obs[n0:] if "connection-headers" in o.key or "CONNECTION_HEADERS" in o.key]
     ctx.obs[n0:] = mine
     ctx.floor("check_http2_request|connection-header-obligations", len(mine), 2, "obligations on the removal of connection-specific headers")
+    # second external precondition: hyper's HTTP/1 encoder panics on a request version it cannot write (`unexpected request
+    # version` for HTTP/0.9).  hyperdriver's guard is that every request handed to an HTTP/1 sender is stamped HTTP/1.1 first
+    # (C13.5, H1 arm); From<Version> for HttpProtocol sends every non-HTTP/2 version to an HTTP/1 connection and relies on it.
+    n1 = len(ctx.obs)
+    c13.C13_5(ctx, facts)
+    mine2 = [o for o in ctx.obs[n1:] if "H1-version" in o.key]
+    ctx.obs[n1:] = mine2
+    ctx.floor("HttpConnection::send_request|h1-stamp-obligation", len(mine2), 1, "obligation that HTTP/1 requests are stamped HTTP/1.1")
     ctx.assume("hyper 1.x h2 client: headers.remove(CONNECTION) followed by to_str().unwrap() (proto/h2/mod.rs) is the only header-dependent panic "
                "of the vendored hyper reachable from a request that hyperdriver forwards; found by a seeded change, not by a scan of hyper")
 
